@@ -403,6 +403,8 @@ def run_scenario(kind: str, ids: list[str], steps: list[tuple[int, str, int]], t
                 stats["ops"][op] += 1
             if out.startswith("err:") and out[4:] in SQLITE_ERRORS:
                 rep(f"storage-error[{kind}]:{op}:{out[4:]}", f"[{kind}] ids {ids!r}: {op} on application {ids[k]!r} failed with {out[4:]}", step)
+            if out.startswith("ineffective:"):
+                rep(f"purge-leaves-own-data[{kind}]:{op}", f"[{kind}] ids {ids!r}: {op} on application {ids[k]!r} returned normally but its own data is still there ({out[12:]})", step)
             if out.startswith("unknown:"):
                 rep(f"observed-foreign[{kind}]:{op}", f"[{kind}] ids {ids!r}: {op} on application {ids[k]!r} returned invocation {out[8:]} that it never created", step)
             full = full_every or op.startswith("purge")
